@@ -1,4 +1,5 @@
 (* C07 — hostile compression cannot make name decoding loop or blow up. *)
+From DNS Require Import Proofs.DecCost Proofs.DecCostMsg.
 From DNS Require Import Model.Dec Spec.Names Proofs.DecBase Proofs.DecName Proofs.DecNameSpec
   Proofs.DecNameSound Proofs.DecNameCyclic.
 Local Open Scope N_scope.
@@ -156,3 +157,101 @@ Proof. do 3 eexists. split; [vm_compute; reflexivity|]. repeat split. Qed.
 Example C07_bytes_ok_needed :
   domain_name [18446744073709551616] (mk_main [18446744073709551616]) = DPanic SReadOverflow.
 Proof. vm_compute. reflexivity. Qed.
+
+(* ---------------------------------------------------------------------------------------------
+   whole-message work bound *)
+(* C07 — the work of the decoder is linear in the input: "decoding any byte string terminates, and
+   the number of octets it examines is bounded by a fixed multiple of the input length plus a
+   constant, whatever pointer structure the input contains (self-references, cycles, long chains,
+   fans of pointers to one long name)".  Termination without panic: Props/C01.v, Props/C07.v. *)
+
+(* Vocabulary (definitions in Proofs/):
+   d_cost          : the octet counter of the decoder state: Decoder::read(n) adds n, Decoder::bytes
+                     adds the rest of the window; a sub-decoder's reads are counted again
+   cost_of r       : the counter at the end of a run: match r with DOk _ s => d_cost s | DErr _ c => c | _ => 0 end
+   dst_wf s        : lenN (d_rest s) = d_len s - d_off s, d_len s < 2^62, d_off s < 2^62, octets < 256
+   costly w m      : on every well-formed state s with d_off s <= d_len s:
+                       m s = DOk _ s'  -> dst_wf s', d_len s' = d_len s, d_off s <= d_off s' <= d_len s,
+                                          d_cost s' <= d_cost s + w * (d_off s' - d_off s)
+                       m s = DErr _ c  -> c <= d_cost s + w * (d_len s - d_off s) + 544 *)
+
+(* the message decoder: K = 290 (289 octets examined at most per accepted name, which consumes at
+   least one octet, + 1 for the RDATA window), C0 = 544 (one rejected name) *)
+Theorem C07_work_linear : forall b,
+  bytes_ok b -> lenN b < 2 ^ 62 -> cost_of (dec_Dns b) <= 290 * lenN b + 544.
+Proof. exact work_linear_Dns. Qed.
+Print Assumptions C07_work_linear.
+
+Theorem C07_work_linear_RR : forall b,
+  bytes_ok b -> lenN b < 2 ^ 62 -> cost_of (dec_RR b) <= 290 * lenN b + 544.
+Proof. exact work_linear_RR. Qed.
+Print Assumptions C07_work_linear_RR.
+
+(* the other entry points examine a bounded number of octets *)
+Theorem C07_work_const : forall b,
+  bytes_ok b -> lenN b < 2 ^ 62 ->
+  cost_of (dec_Question b) <= 544 /\ cost_of (dec_DomainName b) <= 544 /\ cost_of (dec_Flags b) <= 2 /\
+  cost_of (dec_Type b) <= 2 /\ cost_of (dec_Class b) <= 2 /\ cost_of (dec_QType b) <= 2 /\ cost_of (dec_QClass b) <= 2.
+Proof. exact work_const_entries. Qed.
+Print Assumptions C07_work_const.
+
+(* the same for the readers as methods of an existing Decoder: any well-formed state with the cursor
+   inside its window over any outermost buffer [main]; stated with the predicate [costly] unfolded *)
+Theorem C07_work_readers : forall main s,
+  bytes_ok main -> lenN main < 2 ^ 62 -> dst_wf s -> d_off s <= d_len s ->
+  cat 290 (dns_ main) s /\ cat 290 (rr_ main) s /\ cat 289 (question_ main) s /\ cat 289 (domain_name main) s /\
+  (forall t owner hclass ttl, cat 289 (rr_body main t owner hclass ttl) s) /\
+  cat 2 rr_edns_option s /\ cat 2 rr_apl_apitem s /\ (forall key, cat 1 (rr_service_parameter key) s).
+Proof. exact work_readers. Qed.
+Print Assumptions C07_work_readers.
+
+Theorem C07_work_cat_def : forall (A : Type) (w : N) (m : DM A) (s : dst),
+  cat w m s = match m s with
+              | DOk _ s' => dst_wf s' /\ d_len s' = d_len s /\ d_off s <= d_off s' /\ d_off s' <= d_len s /\
+                            d_cost s' <= d_cost s + w * (d_off s' - d_off s)
+              | DErr _ c => c <= d_cost s + w * (d_len s - d_off s) + 544
+              | DPanic _ => True
+              | DFuel => True
+              end.
+Proof. exact cat_def. Qed.
+Print Assumptions C07_work_cat_def.
+
+(* composition: a sub-window adds one to the weight; sequencing and loops keep it *)
+Theorem C07_work_with_sub : forall (A : Type) (w w' n : N) (m : DM A),
+  w + 1 <= w' -> costly w m -> costly w' (with_sub n m).
+Proof. exact @costly_with_sub. Qed.
+Print Assumptions C07_work_with_sub.
+
+(* ---- examples (non-vacuity) ---- *)
+(* a fan: one question with a name of 255 octets, then 200 questions that are pointers to it *)
+Fixpoint ptr_questions (k : nat) : bytes :=
+  match k with O => [] | S k' => 192 :: 12 :: 0 :: 1 :: 0 :: 1 :: ptr_questions k' end.
+Definition fan_msg : bytes :=
+  [0; 0; 0; 0; 0; 201; 0; 0; 0; 0; 0; 0] ++ long_name ++ [0; 1; 0; 1] ++ ptr_questions 200.
+
+Example C07_fan :
+  lenN fan_msg = 1471 /\ cost_of (dec_Dns fan_msg) = 52471 /\ 52471 <= 290 * 1471 + 544 /\
+  match dec_Dns fan_msg with DOk m _ => lenN (m_qd m) = 201 | _ => False end.
+Proof.
+  split; [vm_compute; reflexivity|]. split; [vm_compute; reflexivity|]. split; [vm_compute; discriminate|].
+  vm_compute. reflexivity.
+Qed.
+
+(* 100 RP records whose owner and two RDATA names are pointers to the long name: 42 octets examined
+   per octet of input *)
+Fixpoint rp_records (k : nat) : bytes :=
+  match k with O => [] | S k' => [192; 12; 0; 17; 0; 1; 0; 0; 0; 0; 0; 4; 192; 12; 192; 12] ++ rp_records k' end.
+Definition rp_msg : bytes :=
+  [0; 0; 0; 0; 0; 1; 0; 100; 0; 0; 0; 0] ++ long_name ++ [0; 1; 0; 1] ++ rp_records 100.
+Example C07_fan_rdata :
+  lenN rp_msg = 1871 /\ cost_of (dec_Dns rp_msg) = 78771 /\ 78771 <= 290 * 1871 + 544 /\
+  match dec_Dns rp_msg with DOk m _ => lenN (m_an m) = 100 | _ => False end.
+Proof.
+  split; [vm_compute; reflexivity|]. split; [vm_compute; reflexivity|]. split; [vm_compute; discriminate|].
+  vm_compute. reflexivity.
+Qed.
+
+(* a name that points to itself: six octets examined *)
+Example C07_self_pointer_cost :
+  dec_DomainName [192; 0] = DErr (EEndlessRecursion, [0]) 6 /\ cost_of (dec_DomainName [192; 0]) = 6.
+Proof. split; vm_compute; reflexivity. Qed.
